@@ -129,6 +129,19 @@ def handle : List String → String
       let spec := String.join (orig.map fun _ => if sp == "1" then "T" else "K")
       s!"{labelCode c.target orig res}\t{spec}"
     | none => "bad-op"
+  | "apptexts" :: ws =>
+    -- calls separated by "|": flag (1 = the document's table, 0 = None) followed by the code points
+    let call? (c : List String) : Option (Bool × List Nat) :=
+      match c with
+      | f :: cs => (natList? cs).map fun v => (f == "1", v)
+      | [] => none
+    match (splitAll "|" ws).mapM call? with
+    | some calls =>
+      let out := ";".intercalate ((appendTexts calls).map dots)
+      -- the property's expectation per call, independent of the calls before it
+      let spec := ";".intercalate (calls.map fun c => dots (if c.1 then applySubs charsubs c.2 else c.2))
+      s!"{out}\t{spec}"
+    | none => "bad-op"
   | "docsubs" :: ws =>
     -- documents separated by "|", each word one disabled source (code points joined by ".")
     match (splitAll "|" ws).mapM (fun d => d.mapM nats?) with
